@@ -110,6 +110,7 @@ class Program:
         self.all_funcs: List[Func] = []
         self.all_classes: Dict[str, Cls] = {}
         self.inlined = 0
+        self.renamed: List[str] = []
         self._load()
 
     # ------------------------------------------------------------------ loading
@@ -117,6 +118,7 @@ class Program:
         if not os.path.isdir(self.pkgdir):
             raise AnalysisError(f"package directory {self.pkgdir} not found")
         names = sorted(n for n in os.listdir(self.pkgdir) if n.endswith(".py"))
+        parsed = []
         for n in names:
             rel = f"{PKG}/{n}"
             path = os.path.join(self.pkgdir, n)
@@ -129,10 +131,14 @@ class Program:
                 tree = ast.parse(src, filename=path)
             except SyntaxError as e:
                 raise AnalysisError(f"{rel} does not parse: {e}")
-            m = Module(n[:-3], rel, path, src, tree, lines=src.splitlines())
+            parsed.append(Module(n[:-3], rel, path, src, tree, lines=src.splitlines()))
+        # private functions that were merely renamed get their known names back (sa/anchors.py)
+        from .anchors import normalise
+        self.renamed = normalise({m.name: m.tree for m in parsed})
+        for m in parsed:
             # calls of helpers that did not exist when the rules were written are expanded in place (sa/inline.py)
             from .inline import Inliner
-            self.inlined += Inliner(m.name, tree).run()
+            self.inlined += Inliner(m.name, m.tree).run()
             self._index(m)
             self.modules[m.name] = m
 
